@@ -156,6 +156,8 @@ def emit_group(g, tag, orders, backend):
         rt = "AmountT" if r == "AmountT" else r
         out.append("        { let r: %s = %s %s %s; println!(\"O %s %d {} {:?}\", amt(r.amount()), r.unit()); }" % (rt, xv, op, yv, tag, k))
         out.append("        { let (p, q) = (%s, %s); let r: %s = &p %s &q; println!(\"O %s %d {} {:?}\", amt(r.amount()), r.unit()); }" % (xv, yv, rt, op, tag, k))
+        out.append("        { let (p, q) = (%s, %s); let r: %s = &p %s q; println!(\"O %s %d {} {:?}\", amt(r.amount()), r.unit()); }" % (xv, yv, rt, op, tag, k))
+        out.append("        { let (p, q) = (%s, %s); let r: %s = p %s &q; println!(\"O %s %d {} {:?}\", amt(r.amount()), r.unit()); }" % (xv, yv, rt, op, tag, k))
         k += 1
     out.append("    }")
     out.append("}")
@@ -309,7 +311,7 @@ def check_group(g, tag, orders, out_lines, backend):
         want = mx * my if op == "*" else mx / my
         if k in seen:
             results = seen[k]
-            expect(len(results) == 2 and results[0][3:] == results[1][3:], "%s: owned and borrowed forms of %s %s %s differ: %s" % (tag, x, op, y, results))
+            expect(len(results) == 4 and all(r[3:] == results[0][3:] for r in results), "%s: owned and borrowed forms of %s %s %s differ: %s" % (tag, x, op, y, results))
             a, unit = results[0][3], results[0][4]
             if r == "AmountT":
                 sr = Fraction(1)
